@@ -67,17 +67,42 @@ type c13Case struct {
 	Kind     string
 }
 
-var c13FontFiles = []string{"DejaVuSerif.ttf", "EBGaramond12-Regular.otf", "Dynalight-Regular.otf"}
+// the fourth entry is DejaVuSerif.ttf with the italic angle of its post table set to -11 degrees in
+// memory (the bundled fonts are all upright; an oblique font has negative numbers in its descriptor)
+var c13FontFiles = []string{"DejaVuSerif.ttf", "EBGaramond12-Regular.otf", "Dynalight-Regular.otf", "DejaVuSerif.ttf+italicAngle-11"}
+
+// c13SetItalicAngle rewrites post.italicAngle (16.16 fixed point at offset 4 of the post table).
+func c13SetItalicAngle(b []byte, deg int) []byte {
+	out := append([]byte(nil), b...)
+	if len(out) < 12 {
+		return out
+	}
+	n := int(out[4])<<8 | int(out[5])
+	for i := 0; i < n && 12+16*i+16 <= len(out); i++ {
+		e := out[12+16*i:]
+		if string(e[:4]) == "post" {
+			off := int(e[8])<<24 | int(e[9])<<16 | int(e[10])<<8 | int(e[11])
+			if off+8 <= len(out) {
+				v := uint32(int32(deg) << 16)
+				out[off+4], out[off+5], out[off+6], out[off+7] = byte(v>>24), byte(v>>16), byte(v>>8), byte(v)
+			}
+		}
+	}
+	return out
+}
 var c13FontOnce sync.Once
 var c13Fonts []*canvas.FontFamily
 
 func c13LoadFonts() {
 	c13FontOnce.Do(func() {
 		for _, fn := range c13FontFiles {
-			b, err := os.ReadFile(filepath.Join(repoDir(), "resources", fn))
+			b, err := os.ReadFile(filepath.Join(repoDir(), "resources", strings.SplitN(fn, "+", 2)[0]))
 			if err != nil {
 				c13Fonts = append(c13Fonts, nil)
 				continue
+			}
+			if strings.Contains(fn, "+italicAngle") {
+				b = c13SetItalicAngle(b, -11)
 			}
 			fam := canvas.NewFontFamily(strings.TrimSuffix(fn, filepath.Ext(fn)))
 			if fam.LoadFont(b, 0, canvas.FontRegular) != nil {
